@@ -46,12 +46,23 @@ func genC16Page(r *Rand, g *Gen, idx int) *c16Page {
 		for m := range p.markers {
 			before[m] = true
 		}
-		which := r.Intn(19)
+		which := r.Intn(21)
 		kindNames := []string{"page top level", "loop body", "component included k times", "two components", "side by side", "unreachable branch", "component inside a loop",
 			"on the loop element", "component reached directly and through a wrapper", "nested loops", "shorthand component tag", "component with <template> root", "v-if branch taken",
 			"slot content, component used twice", "same-name components in different directories", "else-branch inside a loop", "v-once on the <template> root of a component",
-			"default slot content placed at two outlets", "v-else after an empty loop inside a loop"}
+			"default slot content placed at two outlets", "v-else after an empty loop inside a loop",
+			"named slot content placed at two outlets", "named slot content placed in a loop"}
 		switch which {
+		case 19: // v-once inside named slot content that the component places at two outlets
+			m := mk()
+			g.put("components/TwoNamed.vuego", `<div class="twon"><slot name="x"></slot><p>mid</p><slot name="x"></slot></div>`)
+			parts = append(parts, fmt.Sprintf(`<template include="components/TwoNamed.vuego"><template #x><%s v-once>%s</%s><i>after</i></template></template>`, tag, m, tag))
+			p.markers[m] = func(int, bool) int { return 1 }
+		case 20: // ... places inside a loop
+			m := mk()
+			g.put("components/LoopNamed.vuego", `<ul class="loopn"><li v-for="item in items"><slot name="x"></slot></li></ul>`)
+			parts = append(parts, fmt.Sprintf(`<template include="components/LoopNamed.vuego" :items="items"><template #x><%s v-once>%s</%s></template></template>`, tag, m, tag))
+			p.markers[m] = func(items int, _ bool) int { return min1(items) }
 		case 15: // v-once on the taken else-branch, inside a loop
 			m := mk()
 			parts = append(parts, fmt.Sprintf(`<div v-for="item in items"><p v-if="off">never</p><%s %s v-once>%s</%s></div>`, tag, Pick(r, []string{"v-else", `v-else-if="!off"`}), m, tag))
@@ -250,16 +261,21 @@ func genC16(seed uint64, run int, tier string) *RunSpec {
 	}
 	spec.Files = g.FileSpecs(1_700_000_000_000_000_000)
 	spec.Engine = randomEngine(r, g.Eng)
+	spec.Engine.BaseFill = &DataSpec{Shape: "map", Tag: "zzbzz", Items: r.Intn(4), Flag: r.Bool(), Variant: 1}
 	spec.Kernel = randomKernelSeq(r)
 	spec.Kernel.Map.Order = "asc"
 	n := 2 + r.Intn(5)
 	for i := 0; i < n; i++ {
 		p := Pick(r, pages)
-		entry := Pick(r, Entries)
+		entry := Pick(r, append(append([]string{}, Entries...), BaseEntries...))
 		d := DataSpec{Shape: Pick(r, []string{"map", "map", "struct"}), Tag: fmt.Sprintf("zz%dzz", i), Items: r.Intn(4), Flag: r.Bool(), Variant: r.Intn(3)}
+		if strings.HasPrefix(entry, "Base.") {
+			// rendered straight on the shared base template: the data is what the base template was filled with
+			d = *spec.Engine.BaseFill
+		}
 		op := OpSpec{Kind: "render", Entry: entry, File: p.name, Data: d, Writer: WriterSpec{FailAt: -1}, Reader: ReaderSpec{FailAfter: -1}, Expect: &Expect{Markers: map[string]int{}}}
-		isFile := entry == "Load.Render" || entry == "RenderFile"
-		if entry == "RenderString" || entry == "RenderByte" || entry == "RenderReader" {
+		isFile := entry == "Load.Render" || entry == "RenderFile" || entry == "Base.RenderFile" || entry == "Base.Load.Render"
+		if entry == "RenderString" || entry == "RenderByte" || entry == "RenderReader" || entry == "Base.RenderString" {
 			op.Source = p.body
 		}
 		op.Expect.Kinds = map[string]string{}
@@ -427,6 +443,10 @@ func entryClass(e string) string {
 	switch e {
 	case "RenderString", "RenderByte", "RenderReader":
 		return "string"
+	case "Base.RenderString":
+		return "string on the base template"
+	case "Base.RenderFile", "Base.Load.Render":
+		return "file on the base template"
 	case "Vue.RenderFragment":
 		return "fragment"
 	case "Vue.Render":
